@@ -140,6 +140,26 @@ def late_cases(rng, n):
                    meta=dict(kind='late-subscriber', dest=x, sa=sa, loses=loses, bypass=bypass, shape=0, dll=dll, broadcast=False))
 
 
+def removed_cases(rng, n):
+    """a CA with listeners of its own that is taken out of the stack again (ecu.remove_ca): its address is nobody's from then on —
+    frames to it are foreign traffic, whatever listeners the departed CA left behind"""
+    for k in range(n):
+        dll = 'j1939-21' if k % 2 == 0 else 'j1939-22'
+        x = rng.choice([0x41, 0x10, 0x7F, 0x00, rng.randrange(0, 248)])
+        sa = (x + 0x31) % 0xFE
+        removed = k % 3 != 2
+        script = [dict(t=400000, s=0, op='ca_subscribe', ca=0, cid=5)]
+        if removed:
+            script.append(dict(t=500000, s=0, op='remove_ca', addr=x))
+        inject = []
+        fr = [f for f in frames_for(dll, x, sa) if f[0] in ('pdu1-app', 'pdu1-app-dp1', 'tp-rts', 'fd-rts', 'fd-multipg')]
+        for i, f in enumerate(fr):
+            inject.append(dict(t=1200000 + 1000 * i, to=0, id=f[1], data=f[2], fd=f[3], via='listener'))
+        yield dict(stacks=[dict(dll=dll, max_cmdt=2, subs=[], cas=[dict(name=rng.getrandbits(60), addr=x, bypass=True, subs=[6], req=[])])], lat=[1], jit=[1],
+                   script=script, inject=inject, horizon=1200000 + 3_000_000, oracle_only=True,
+                   meta=dict(kind='late-subscriber', dest=x, sa=sa, loses=removed, bypass=True, removed=removed, shape=0, dll=dll, broadcast=False))
+
+
 TWO_CAS = dict(name='two-operational-cas', subs=[dict(cid=20, filt=None)],
                cas=[dict(name=21, addr=0x48, bypass=True, subs=[21], req=[22]), dict(name=22, addr=0x49, bypass=True, subs=[23], req=[24]),
                     dict(name=23, addr=0x4A, bypass=False, subs=[25], req=[26])])
@@ -378,7 +398,7 @@ def run(out, tier, rng, work):
     dests = sorted(set([0, 1, 0x3F, 0x40, 0x41, 0x42, 0x43, 0x44, 0x45, 0x46, 0x47, 0x48, 0x7F, 0x80, 0xEA, 0xFD, 0xFE, 0xFF] + [rng.randrange(256) for _ in range(25)])) if tier == 'quick' else list(range(256))
     runs = []
     worst = {}
-    for sc in list(one_frame_cases(['j1939-21', 'j1939-22'], dests)) + list(flag_cases(['j1939-21', 'j1939-22'])) + list(leaver_cases(rng, 60 if tier == 'quick' else 1500)) + list(late_cases(rng, 36 if tier == 'quick' else 600)) + list(request_cases(['j1939-21', 'j1939-22'])) + list(cmdt_pdu2_cases([0x40, 0x41, 0x44, 0x46, 0, 0x99] if tier == 'quick' else dests)) + list(sender_cases(rng, 12 if tier == 'quick' else 200)):
+    for sc in list(one_frame_cases(['j1939-21', 'j1939-22'], dests)) + list(flag_cases(['j1939-21', 'j1939-22'])) + list(leaver_cases(rng, 60 if tier == 'quick' else 1500)) + list(late_cases(rng, 36 if tier == 'quick' else 600)) + list(request_cases(['j1939-21', 'j1939-22'])) + list(cmdt_pdu2_cases([0x40, 0x41, 0x44, 0x46, 0, 0x99] if tier == 'quick' else dests)) + list(sender_cases(rng, 12 if tier == 'quick' else 200)) + list(removed_cases(rng, 12 if tier == 'quick' else 200)):
         res = scen.run(sc)
         runs.append((sc, res))
         out.add_case(scen.sc_hash(sc), True, sample=sc['meta'] if len(out.samples) < 3 else None)
@@ -394,7 +414,7 @@ def run(out, tier, rng, work):
         for x in oracle(sc, res):
             if x['kind'] not in worst:
                 worst[x['kind']] = (x, sc)
-    sub = [r for r in runs if r[0]['stacks'][0].get('dll') == 'j1939-21']
+    sub = [r for r in runs if r[0]['stacks'][0].get('dll') == 'j1939-21' and not r[0].get('oracle_only')]
     step = max(1, len(sub) // (600 if tier == 'quick' else 6000))
     ntr, mism, errors = corr21.correspond(work, sub[::step], tag='c05')
     out.traces_validated = ntr
